@@ -126,3 +126,32 @@ Proof.
   - reflexivity.
   - rewrite deadline_ms_pos by lia. replace (0 <? K) with true by lia. reflexivity.
 Qed.
+
+(* ---------- histories with the broker's own writes ---------- *)
+Lemma run_ev_inbounds K h : forall c, run_ev K c h = run K c (inbounds h).
+Proof.
+  induction h as [|e r IH]; intro c; [reflexivity|].
+  destruct e as [a | t]; cbn [run_ev fold_left step_ev inbounds].
+  - change (run_ev K (step K c a) r = run K (step K c a) (inbounds r)). apply IH.
+  - change (run_ev K c r = run K c (inbounds r)). apply IH.
+Qed.
+
+Lemma mixed_closes_by K t0 h t : 0 < K <= 65535 -> ordered_from t0 (inbounds h) ->
+  last (inbounds h) t0 + limit_ms K <= t -> closed_by K (run_ev K (Open t0) h) t = true.
+Proof. intros HK O Ht. rewrite run_ev_inbounds. exact (closes_by K t0 (inbounds h) t HK O Ht). Qed.
+
+Lemma mixed_never_early K t0 h t : 0 <= K <= 65535 ->
+  gaps_below t0 (inbounds h) (limit_ms K) -> t < last (inbounds h) t0 + limit_ms K ->
+  run_ev K (Open t0) h = Open (last (inbounds h) t0) /\ closed_by K (run_ev K (Open t0) h) t = false.
+Proof. intros HK G Ht. rewrite run_ev_inbounds. exact (never_early K t0 (inbounds h) t HK G Ht). Qed.
+
+(* in particular: writes alone never keep a silent connection open *)
+Lemma writes_do_not_extend K t0 outs t : 0 < K <= 65535 -> t0 + limit_ms K <= t ->
+  closed_by K (run_ev K (Open t0) (map HOut outs)) t = true.
+Proof.
+  intros HK Ht. apply mixed_closes_by; [exact HK| |].
+  - assert (E : inbounds (map HOut outs) = []) by (induction outs as [|x r IH]; [reflexivity|exact IH]).
+    rewrite E. exact I.
+  - assert (E : inbounds (map HOut outs) = []) by (induction outs as [|x r IH]; [reflexivity|exact IH]).
+    rewrite E. exact Ht.
+Qed.
